@@ -426,6 +426,7 @@ theorem sinv_apply (g : G) (a : Action) (h : SInv g) : SInv (g.apply a).1 := by
           rw [hd] at hsem
           refine ⟨?_, h.jw, h.jcount, h.bhp⟩
           simp only [hpNat, List.length_cons] at hsem ⊢; omega
+  | cancelRem p => exact (sinv_deliverCancels g _ h).1
 
 theorem sinv_init (p : Policy) : SInv { wait := p } :=
   ⟨by simp [hpNat], by intro hm; simp at hm, by simp, by intro j hj; simp at hj⟩
@@ -631,5 +632,6 @@ theorem nn_apply (g : G) (a : Action) (h : SInv g) (k : Nat)
           simp at hsem
           exact h2'.1 hsem.1
         | cons t rest => simp [hd] at hm
+  | cancelRem p => exact absurd hm (nn_deliverCancels g _ h k)
 
 end Aiorpcx.C09
